@@ -70,7 +70,11 @@ not so at first; the misses drove these additions:
   mask-string form added in round 2) → `cidr_merge` items and IPSet elements are now also written as `address/netmask` and
   `address/hostmask` text.  The other 59 — among them three independent float-`log2` rewrites, four stale memos, the BASE_85
   alphabet with one wrong character, a MAC pattern without its `$`, `_sys_maxint` lowered to 2^31-1, an IANA multicast shortcut
-  that ignores alignment — were reported at once, most of them with a concrete failing input.
+  that ignores alignment — were reported at once, all but one with a concrete failing input.  That one, `C12_r4_1` (a memo of
+  `IPNetwork.key()` that every mutator except the inherited `value` setter resets), was reported only through its broken source
+  tie: every lifecycle history that assigned `.value` also assigned the prefix afterwards, which reset the memo → the lifecycle
+  now reads all observers after EVERY mutator call and has single-mutator histories (`value=` alone, `prefixlen=` alone,
+  `value=` twice, observers between the word assignments of an EUI); re-run: 29 failing inputs.
 
 | seeded change | what was changed | needs, to manifest | caught |
 |---|---|---|---|
